@@ -1926,6 +1926,23 @@ def fold_module_constants(p: Program, scope: FunctionInfo, fn: ast.AST, vocab: S
             return ast.copy_location(ast.Constant(value=v), n)
 
     F().visit(fn)
+    if count:
+        class J(ast.NodeTransformer):
+            """f'{'v'}{n:03d}' (a folded constant inside an f-string) reads f'v{n:03d}'"""
+            def visit_JoinedStr(self, n: ast.JoinedStr):
+                self.generic_visit(n)
+                vals = []
+                for v in n.values:
+                    if isinstance(v, ast.FormattedValue) and isinstance(v.value, ast.Constant) and isinstance(v.value.value, str) \
+                            and v.conversion == -1 and v.format_spec is None:
+                        v = ast.copy_location(ast.Constant(value=v.value.value), v)
+                    if isinstance(v, ast.Constant) and vals and isinstance(vals[-1], ast.Constant):
+                        vals[-1] = ast.copy_location(ast.Constant(value=str(vals[-1].value) + str(v.value)), vals[-1])
+                    else:
+                        vals.append(v)
+                n.values = vals
+                return n
+        J().visit(fn)
     return count
 
 
